@@ -119,15 +119,15 @@ def _batches(p):
     return out
 
 
-def _mk(p):
+def _mk(p, shared=None):
     from npstructures import Counter
     kd = np.dtype(p["kdtype"])
-    keys = np.array(p["keys"], dtype=kd)
+    keys = np.array(p["keys"], dtype=kd) if shared is None else shared[0]
     kw = {} if p["mod"] is None else {"mod": p["mod"]}
     if p["init"] == "default":
         return Counter(keys, **kw), kd
     if isinstance(p["init"], list):
-        return Counter(keys, np.array(p["init"]), **kw), kd
+        return Counter(keys, np.array(p["init"]) if shared is None else shared[1], **kw), kd
     if isinstance(p["init"], float):
         return Counter(keys, p["init"], value_dtype=float, **kw), kd
     return Counter(keys, p["init"], **kw), kd
@@ -139,7 +139,11 @@ def _totals(c, p, kd):
 
 def run_impl(p):
     def g():
-        c, kd = _mk(p)
+        kd0 = np.dtype(p["kdtype"])
+        shared = (np.array(p["keys"], dtype=kd0), np.array(p["init"]) if isinstance(p["init"], list) else None)
+        keep = (shared[0].copy(), None if shared[1] is None else shared[1].copy())
+        c, kd = _mk(p, shared)
+        twin, _ = _mk(p, shared)           # a second counter built from the SAME key / initial-value arrays, never counted into
         trace = []
         batches = _batches(p)
         for b in batches:
@@ -156,6 +160,11 @@ def run_impl(p):
             c2.count(np.array(alls[i:j], dtype=kd)); i = j
         c3, _ = _mk(p)
         c3.count(list(alls))
+        if not np.array_equal(shared[0], keep[0]) or (shared[1] is not None and not np.array_equal(shared[1], keep[1])):
+            raise AssertionError("the counter wrote into the arrays it was constructed from")
+        ini = [0 if p["init"] == "default" else (p["init"][i] if isinstance(p["init"], list) else p["init"]) for i in range(len(p["keys"]))]
+        if [float(x) for x in _totals(twin, p, kd)] != [float(x) for x in ini]:
+            raise AssertionError("a counter built from the same arrays changed along with this one")
         return {"k": "obs", "trace": canon(trace), "resplit": canon(_totals(c2, p, kd)), "onecall": canon(_totals(c3, p, kd)),
                 "items": canon(htgen.sort_pairs((k, float(v) if isinstance(p["init"], float) else int(v)) for k, v in c.items()))}
     return guarded(g)
